@@ -28,6 +28,7 @@ class FS:
         self.fired = False
         self.md_first = True
         self.lock = threading.Lock()
+        self.hold = None         # Event holding pool workers back (worker timing "late")
 
     def reset(self, base, fault=None, md_first=True):
         self.md_first = md_first
@@ -41,6 +42,8 @@ class FS:
         return str(p).replace(self.base, "$D")
 
     def pre(self, op, *paths):
+        if self.hold is not None and threading.current_thread().name.startswith("ThreadPoolExecutor"):
+            self.hold.wait(timeout=5)      # released when the saver thread looks at / waits for a future
         label = op + ":" + ">".join(self.norm(p) for p in paths)
         with self.lock:
             k = self.count.get(label, 0)
@@ -146,6 +149,40 @@ def popen(f, mode="r", *a, **k):
         STATE.post(t)
         return WFile(fh, f)
     return builtins.open(f, mode, *a, **k)
+
+
+def hold_workers():
+    """Worker timing "late": a pool worker does not touch the file system until the thread that owns its future has
+    looked at it - `done()` answers False, *then* the worker runs to completion before the caller continues - or waits
+    for it (wait / result).  A legal schedule of the real thread pool (a worker may finish at any moment), made
+    deterministic; in this process only."""
+    import concurrent.futures as cf
+    import strax.storage.common as sc
+    STATE.hold = threading.Event()
+    real_done, real_result, real_wait = cf.Future.done, cf.Future.result, cf.wait
+
+    def is_worker():
+        return threading.current_thread().name.startswith("ThreadPoolExecutor")
+
+    def done(fut):
+        r = real_done(fut)
+        if not r and not is_worker():
+            STATE.hold.set()
+            real_wait([fut], timeout=5)
+            STATE.hold.clear()
+        return r
+
+    def result(fut, timeout=None):
+        if not is_worker():
+            STATE.hold.set()
+        return real_result(fut, timeout)
+
+    def wait(fs, *a, **k):
+        STATE.hold.set()
+        return real_wait(fs, *a, **k)
+    cf.Future.done = done
+    cf.Future.result = result
+    sc.wait = wait
 
 
 def install():
